@@ -198,7 +198,7 @@ class PairStream(Stream):
             res = []
             for seed in ('1', '4242', 'random'):
                 outp = os.path.join(work, 'out_%s.json' % seed)
-                env = dict(os.environ, PYTHONHASHSEED=seed, PYTHONPATH='/repo:' + core.VERIF)
+                env = dict(os.environ, PYTHONHASHSEED=seed, PYTHONPATH=core.REPO + ':' + core.VERIF)
                 p = subprocess.run(['/venv/bin/python', os.path.join(work, 'helper.py'), inp, outp], env=env,
                                    stdout=subprocess.PIPE, stderr=subprocess.PIPE, text=True, timeout=600)
                 if p.returncode != 0:
